@@ -228,7 +228,61 @@ def _dead_pid():
     return p.pid
 
 
+def execute_pidfile_other_user(case):
+    """The daemon runs as an unprivileged user and the pid file names a live
+    process of another user (kill(pid, 0) answers EPERM): that is a live
+    foreign process, the file must be left alone.  Needs root to drop to
+    'nobody'; inconclusive otherwise."""
+    if os.geteuid() != 0:
+        return [], False, ['pidfile', 'live-inconclusive']
+    tmp = tempfile.mkdtemp(prefix='c08p-')
+    viols = []
+    try:
+        os.chmod(tmp, 0o777)
+        path = os.path.join(tmp, 'circusd.pid')
+        content = ('%d\n' % _helper_pid()).encode()
+        with open(path, 'wb') as f:
+            f.write(content)
+        os.chmod(path, 0o666)
+        r_, w_ = os.pipe()
+        pid = os.fork()
+        if pid == 0:
+            out = b'error'
+            try:
+                os.close(r_)
+                os.setgroups([])
+                os.setgid(65534)
+                os.setuid(65534)
+                from circus.pidfile import Pidfile
+                try:
+                    Pidfile(path).create(os.getpid())
+                    out = b'created'
+                except RuntimeError:
+                    out = b'refused'
+                except Exception as e:
+                    out = ('raised-' + type(e).__name__).encode()
+            finally:
+                os.write(w_, out)
+                os._exit(0)
+        os.close(w_)
+        outcome = os.read(r_, 100).decode()
+        os.close(r_)
+        os.waitpid(pid, 0)
+        after = open(path, 'rb').read() if os.path.exists(path) else None
+        if outcome == 'created' or after != content:
+            viols.append(Violation(
+                'C08:pidfile-live-foreign-pid:other-user:%s' % outcome,
+                'pid file names a live process of another user (%r): '
+                'create() as nobody %s, file now %r' % (content, outcome,
+                                                        after)))
+    finally:
+        shutil.rmtree(tmp, ignore_errors=True)
+    return viols, True, ['pidfile', 'pidfile-other-user']
+
+
 def execute_pidfile(case):
+    if case["content"] == '@live-other-user':
+        return execute_pidfile_other_user(case)
     from circus.pidfile import Pidfile
     import re
     tmp = tempfile.mkdtemp(prefix='c08p-')
@@ -441,7 +495,8 @@ def _sim_strategy():
 
 def _pid_strategy():
     from hypothesis import strategies as st
-    special = st.sampled_from(['@live', '@live-nonl', '@dead', '@own',
+    special = st.sampled_from(['@live', '@live-nonl', '@live-other-user',
+                               '@dead', '@own',
                                '@absent', '', ' ', '\n', '\n\n', '0', '-1',
                                '-0', '00', 'abc', '12abc', '1 2', '0x10',
                                '\xff\xfe', '\x00', '1.5', '1e3', '+5',
